@@ -1,22 +1,45 @@
 """C18 — Medium get/set are inverse and a minimal medium is sufficient and minimal."""
 from contracts import c18_medium as C
 from contracts import c18_mip as CMIP
+from contracts import c18_medium_prop as CPROP
 from pyvc.contract import chain_hooks
 from props._generic import run_property, replay_with_driver
 
 LEVEL = "other"
-KEYS = ["medium.is_active", "medium.get_active_bound", "medium.set_active_bound", "add_linear_obj", "add_mip_obj"]
+KEYS = ["medium.is_active", "medium.get_active_bound", "medium.set_active_bound", "Model.medium@getter", "Model.medium@setter",
+        "add_linear_obj", "add_mip_obj"]
 
 
 def run(rep):
-    run_property(rep, KEYS, hooks=chain_hooks(CMIP.HOOKS), lemmas=lambda: C.lemmas() + CMIP.lemmas(), explanation=(
+    run_property(rep, KEYS, hooks=chain_hooks(CPROP.HOOKS, CMIP.HOOKS), lemmas=lambda: C.lemmas() + CPROP.lemmas() + CMIP.lemmas(),
+                 explanation=(
         "Deductive (kernel): the three nested accessor functions of Model.medium are proved over an abstract exchange "
         "(has_reactants, has_products, lb, ub): is_active, get_active_bound (import bound by the direction of writing) and "
         "set_active_bound (sets exactly the import-side bound, leaves the export bound and every other reaction untouched; raises "
         "ValueError exactly when the value would cross the opposite bound - stated, not hidden). Four glue lemmas over those "
         "contracts (linear real arithmetic on extended reals, per exchange): a listed exchange reads back as given iff its value is "
         "positive, its export bound is untouched; an unlisted exchange ends with import closed, export bound untouched and bounds only "
-        "tightened. minimal_medium.add_linear_obj (the LP formulation's objective) is proved, with a loop invariant over the exchange "
+        "tightened. The property ITSELF is proved on top of these (the nested functions are applied by contract, not inlined), with "
+        "EX = model.exchanges an assumed list of elements of model.reactions, each with exactly one non-empty side, that does not "
+        "depend on bounds. Model.medium (getter, a dict comprehension): the returned dictionary has the id of every ACTIVE exchange "
+        "as a key with its import bound (-lb for `met -->`, ub for `--> met`) as value - whenever that bound is finite: the "
+        "containers of the encoding hold finite reals, an infinite import bound is outside the claim - and every key is the id of an "
+        "active exchange; ids of members of a DictList are pairwise different, so no entry is overwritten; nothing is modified. "
+        "Model.medium = m (setter; m: ids -> finite reals; precondition: model.reactions well-formed, every reaction with valid bounds "
+        "and two distinct solver variables), two loop invariants (over the ghost enumeration of m.items(), and over the set "
+        "difference exchange_rxns - frozen_media_rxns, which is shown to be exactly the unlisted exchanges, both directions): when "
+        "every key is an id of the model and no value crosses an opposite bound, afterwards every reaction of the model whose id is "
+        "a key - exchange or not - has its import-side bound set to the given value and its export-side bound untouched, every "
+        "exchange that is NOT listed has its import-side bound set to min(0, -lb if it has reactants and no products else ub) (the "
+        "closing that lemma unlisted-exchange-import-closed describes) and its export side untouched, and no other reaction is "
+        "touched; a key that is no id of the model raises KeyError; a listed value, or the closing value of an unlisted exchange, "
+        "that would cross the opposite bound raises ValueError (the bounds setter's raising case - stated, not hidden; lemma: for an "
+        "unlisted exchange this happens exactly when it is FORCED to import, ub < 0 for `met -->` resp. lb > 0 for `--> met`); with "
+        "both an unknown key and a crossing value it is KeyError or ValueError, whichever the iteration order meets first; what "
+        "was changed before a raise is unspecified. Glue lemmas over the very post-conditions of the two contracts: "
+        "get(set(m)) has exactly the keys k of m with m[k] > 0 whose reaction is an exchange, and reads every one back as given; the "
+        "one-term call-site summary of get_active_bound follows from its proved cases. Not claimed for the setter: the solver-side "
+        "variable bounds (C01, per bounds setter) and the logged warning. minimal_medium.add_linear_obj (the LP formulation's objective) is proved, with a loop invariant over the exchange "
         "list, to put coefficient 1 on the IMPORT variable of every exchange (reverse variable of `met -->`, forward variable of "
         "`--> met`), to leave every other objective coefficient alone and to set the direction to min - i.e. the objective is the "
         "total import flux, as documented. minimal_medium.add_mip_obj (the MILP formulation 'least number of components') is proved on "
@@ -32,12 +55,18 @@ def run(rep):
         "lemmas (LRA, y binary, 0 <= v <= M): y = 0 forces v = 0, y = 1 admits every v up to M, v > 0 forces y = 1 - so the objective "
         "counts the active imports PROVIDED M bounds the import flux, which is why M must range over both bounds and absolute values. "
         "Not claimed: that M is finite (an infinite exchange bound makes big_m infinite - the term is then still the one stated), "
-        "model.variables / model.problem are opaque (the size warning is dropped). The loops of the accessors over model.exchanges, "
+        "model.variables / model.problem are opaque (the size warning is dropped). "
         "minimal_medium's driver loop and the optimality of its answers are NOT proved: "
         "bounded driver (exchanges written both ways, sub-dictionaries, sufficiency and minimality against the exact LP / subset "
         "enumeration)."),
         trusted=["Reaction.reactants/products non-empty iff the reaction has negative/positive coefficients (assumed contracts)",
                  "find_boundary_types / model.exchanges (heuristics; assumed to return single-metabolite reactions of the model)",
+                 "Model.medium getter / setter: model.exchanges (assumed contract find_boundary_types[medium]) is a list of elements of "
+                 "model.reactions, each with exactly one non-empty side (Reaction.boundary), and a function of the model structure - no "
+                 "bound is read for boundary_type 'exchange' - hence the same list before and after the setter; WHICH reactions the "
+                 "heuristic takes for exchanges is not verified",
+                 "Model.medium: DictList.get_by_id under its C15 contract; medium values and read-back values are finite reals "
+                 "(container encoding A2); Reaction bounds setters through set_active_bound's proved contract (C01)",
                  "Objective.set_linear_coefficients (optlang, assumed; for add_mip_obj over opaque variable terms: sets exactly the "
                  "given coefficients)",
                  "add_mip_obj: find_boundary_types(model, 'exchange') is a function of the model (fixed-name list EX); "
